@@ -339,6 +339,9 @@ fn main() {
             _ => i += 1,
         }
     }
-    let code = if let Some(p) = replay { run_replay(&prop, &p) } else { run_check(&prop, &tier) };
+    let code = match std::panic::catch_unwind(|| if let Some(p) = &replay { run_replay(&prop, p) } else { run_check(&prop, &tier) }) {
+        Ok(c) => c,
+        Err(_) => escaped_panic(&prop),
+    };
     std::process::exit(code);
 }
